@@ -179,14 +179,14 @@ Section Flow.
         destruct (AP _ _ _ E1 HJ Hb) as (J1 & G1 & W1).
         destruct (AP _ _ _ E2 J1 Hc) as (J2 & G2 & W2).
         destruct (IH _ _ E4 J2 (fun p Hp => Hl p (or_intror Hp))) as (J3 & G3 & W3).
-        split; [exact J3|]. split; [|eapply grows_trans; [eapply grows_trans|]; eassumption].
+        split; [exact J3|]. split; [|exact (grows_trans _ _ _ (grows_trans _ _ _ W1 W2) W3)].
         intros p [<-|Hp]; [|apply G3; exact Hp]. cbn [fst snd]. split.
-        + eapply good_grows; [eapply grows_trans; eassumption|exact G1].
+        + exact (good_grows _ _ _ (grows_trans _ _ _ W2 W3) G1).
         + assert (Gnc : good (fst r2) nc).
           { destruct (is_boolean (fst (snd r2))).
             - inv_ok E3. exact G2.
             - intros n Hn. apply G2. eapply cs_eq_true; eassumption. }
-          eapply good_grows; eassumption.
+          exact (good_grows _ _ _ W3 Gnc).
     Qed.
 
     Lemma good_of_list : forall st (l : list expr) v,
@@ -342,26 +342,25 @@ Proof.
   pose proof (tree_cse_fresh_names _ _ _ _ _ _ H) as (excl' & ks & HX' & Hkeys & _ & Hnot).
   rewrite HX in HX'. injection HX' as <-.
   unfold tree_cse_with in H. stepn H fr E1. stepn H r2 E2. inv_ok H.
-  unfold tree_cse_excluded in HX. rewrite E1 in HX. cbn [bind] in HX. injection HX as HX.
+  unfold tree_cse_excluded in HX. rewrite E1 in HX. cbn [bind] in HX. injection HX as HX. subst excl.
   set (env := mkEnv [] (fr_elim fr) (fr_excl fr)) in *.
   assert (Hes : forall e, In e es -> excl_ok env e).
   { intros e He n Hn. unfold excl_complete in HC. rewrite forallb_forall in HC. specialize (HC e He).
-    rewrite forallb_forall in HC. cbn [env env_excl]. rewrite HX. apply HC. exact Hn. }
+    rewrite forallb_forall in HC. apply HC. exact Hn. }
   assert (J0 : J env rb_empty) by (split; [exact I|intros o s []]).
   destruct (rb_all_ok C CS env eq_refl _ _ _ _ E2 J0 Hes) as ((WF & _) & G).
-  cbn [env env_excl] in WF, G. rewrite HX in WF, G.
   split.
   - intros l1 s r l2 n Hsplit Hocc Hin.
     apply rev_split in Hsplit. rewrite Hsplit in WF. apply wfreps_app in WF. cbn [wfreps] in WF.
     destruct WF as [Hr _]. destruct (Hr n Hocc) as [Hex|(r' & Hr')].
     + exfalso. rewrite Hkeys in Hin. apply in_map_iff in Hin. destruct Hin as (k & Hk & Hkin).
-      specialize (Hnot k Hkin). rewrite Hk in Hnot. cbn [env env_excl] in Hex. congruence.
+      specialize (Hnot k Hkin). rewrite Hk in Hnot. change (env_excl env) with (fr_excl fr) in Hex. congruence.
     + apply in_map_iff. exists (ESym n, r'). split; [reflexivity|]. apply in_rev. exact Hr'.
   - intros o n Ho Hn. apply in_app_or in Ho. destruct Ho as [Ho|Ho].
-    + destruct (G o Ho n Hn) as [Q|(r & Q)]; [right; exact Q|left]. exists r. apply in_rev. exact Q.
+    + destruct (G o Ho n Hn) as [Q|(r & Q)]; [right; exact Q|left]. exists r. apply -> in_rev. exact Q.
     + apply in_map_iff in Ho. destruct Ho as ([s r] & <- & Hsr). cbn [snd] in Hn.
-      apply in_rev in Hsr. apply in_split in Hsr. destruct Hsr as (l1 & l2 & Hsplit).
+      apply <- in_rev in Hsr. apply in_split in Hsr. destruct Hsr as (l1 & l2 & Hsplit).
       rewrite Hsplit in WF. apply wfreps_app in WF. cbn [wfreps] in WF. destruct WF as [Hr _].
-      destruct (Hr n Hn) as [Q|(r' & Q)]; [right; exact Q|left]. exists r'. apply in_rev.
+      destruct (Hr n Hn) as [Q|(r' & Q)]; [right; exact Q|left]. exists r'. apply -> in_rev.
       rewrite Hsplit. apply in_or_app. right. right. exact Q.
 Qed.
